@@ -67,6 +67,7 @@ class Registry:
         self.stubs = {}
         self.axioms = []         # callables ctx -> [z3 Bool]
         self.replays = {}        # obligation-id prefix -> callable(model_info) -> dict
+        self.generators = {}     # contract key -> callable(gen) -> kwargs (concrete inputs)
         self.abstract = set()    # classes never instantiated directly (checked by a static scan)
 
     def contract(self, *a, **k):
